@@ -284,6 +284,42 @@ def correspond(ctx, scale):
         failures.append({'key': f'coq-eval:{name}', 'what': 'case file did not evaluate: ' + out, 'case': {'file': name}})
     for i, code in sorted(bad.items()):
         failures.append({'key': 'lfq:sign', 'what': f'LFQ scale={lmeta[i]["scale"]} x={lmeta[i]["x"]!r}: output {lmeta[i]["out"]!r} differs from the sign rule (+s for x > 0, -s otherwise)', 'case': lmeta[i]})
+    # ---------------- FSQ with PROJECTIONS under CPU autocast (round 11, seed C05-k): a float32 caller inside torch.autocast gets bf16 / fp16 out of
+    # project_in; the scalar map is still applied in float32 (force_quantization_f32) - plain and symmetric grids alike.  The projected latent is
+    # observed with a forward hook, the codes at the input of project_out; reference = the module's own quantize() on the float32 latent outside autocast
+    from vector_quantize_pytorch import FSQ as _FSQ
+    for ai in range(12 if not ctx.thorough else 36):
+        sym_a = ai % 2 == 0
+        ncb_a = [1, 2][(ai // 2) % 2]
+        lv_a = [[5, 4], [3, 5, 7], [8, 6]][(ai // 4) % 3]
+        dt_a = [torch.bfloat16, torch.float16][(ai // 2) % 2] if ai % 3 != 2 else torch.bfloat16
+        try:
+            torch.manual_seed(9900 + ai)
+            fa = _FSQ(lv_a, dim=len(lv_a) * ncb_a + 1, num_codebooks=ncb_a, preserve_symmetry=sym_a).eval()
+            seen = {}
+            h1 = fa.project_in.register_forward_hook(lambda m_, i_, o_: seen.__setitem__('z', o_.detach().clone()))
+            h2 = fa.project_out.register_forward_pre_hook(lambda m_, i_: seen.__setitem__('codes', i_[0].detach().clone()))
+            xa = torch.randn(4, 64, len(lv_a) * ncb_a + 1) * 1.5
+            try:
+                with torch.no_grad(), torch.autocast('cpu', dtype=dt_a):
+                    fa(xa)
+            finally:
+                h1.remove()
+                h2.remove()
+            za = seen['z'].float().reshape(4, 64, ncb_a, len(lv_a))
+            with torch.no_grad():
+                want_a = fa.quantize(za)
+            got_a = seen['codes'].float().reshape(4, 64, ncb_a, len(lv_a))
+            ev += 1
+            dist['fsq_projected_autocast_calls'] = dist.get('fsq_projected_autocast_calls', 0) + 1
+            bad_a = (got_a - want_a).abs() > 2.0 ** -6
+            if bool(bad_a.any()):
+                pos_a = tuple(int(v) for v in bad_a.nonzero()[0])
+                failures.append({'key': f'fsq-projected-autocast:sym={sym_a}:dtype={str(dt_a).split(".")[-1]}', 'what': f'FSQ({lv_a}, dim={len(lv_a) * ncb_a + 1}, num_codebooks={ncb_a}, preserve_symmetry={sym_a}) under CPU autocast {dt_a}: '
+                                 f'{int(bad_a.sum())} of {bad_a.numel()} scalars are not quantized as in float32, e.g. latent {float(za[pos_a]):.7g} (level count {lv_a[pos_a[-1]]}) -> {float(got_a[pos_a]):.5g}, float32 quantization gives {float(want_a[pos_a]):.5g}',
+                                 'case': dict(part='fsq-projected-autocast', levels=lv_a, sym=sym_a, ncb=ncb_a)})
+        except Exception as ex:
+            failures.append({'key': f'fsq-projected-autocast:exception:{type(ex).__name__}', 'what': repr(ex)[:200], 'case': dict(part='fsq-projected-autocast', levels=lv_a, sym=sym_a)})
     # ---------------- position-wise / independent of layout, other dimensions, training flag (no noise dropout)
     for rep in range((6 if not ctx.thorough else 40) * scale):
         levels = [rng.choice([2, 3, 4, 5, 7, 8]) for _ in range(rng.choice([1, 2, 3]))]
